@@ -28,7 +28,7 @@ class K:
 
     def __init__(self, name, pre=None, claims=(), windows=None, allow_panic=(), witnesses=(),
                  variants=("rel",), note="", vectors=(), timeout=None, nopanic=True, equal_variants=False,
-                 tier="quick", solvers=None, bounds=None, split=None, known=()):
+                 tier="quick", solvers=None, bounds=None, split=None, known=(), probe_only=False):
         self.name = name
         self.pre = pre or (lambda a: BoolVal(True))
         self.claims = list(claims)
@@ -53,6 +53,9 @@ class K:
         # outside every role; inside a role a violating, natively replayed witness is reported as
         # KNOWN-FINDING (and nothing is reported if the defect no longer reproduces).
         self.known = list(known)
+        # probe_only: do not prove the claims here (another entry does, on a narrower domain); only
+        # look for the known findings' witnesses
+        self.probe_only = probe_only
 
     def boxes(self, tier="quick"):
         if not self.split:
